@@ -3,7 +3,7 @@ package specs
 import "verifharness/fw"
 
 func init() {
-	fw.Reg(&fw.Spec{ID: "C08", Level: "exploration", Quick: 320, Thorough: 8000,
+	fw.Reg(&fw.Spec{ID: "C08", Level: "exploration", Quick: 320, Thorough: 60000,
 		Rule: "one case = one sequential history of 12 operations (thorough: 8-20) on ONE RuleBuilder, drawn from: full build (1-6 rules), incremental build (1-4 rules per call: new names, installed names with equal salience, installed names with changed salience - to a tie, just outside the installed range, a neighbour value or anything - in any mixture), RemoveRules (present names, absent and never-built names, mixtures, all names), and operations that must fail and change nothing (texts with a syntax error, the same rule name twice in one text, blank texts - for both build entry points - and RemoveRules(nil/[])); 8 names (digit-only, with a space, differing only in case, non-ASCII, spelling a keyword), saliences in [-3,3] with frequent ties plus +-1000000007 and the int64 extremes, rules without a salience clause, with/without description, keyword case varied. Every rule version has a unique number V, its body is tr(V) return V. After EVERY operation the sort model is executed and the tr() sequence, the result map, IsExist over all names plus two never-built ones, the nil-ness of the returned error and the stored name/salience/description are compared with a Go map that denotes the history; ties may run in any order. distinct = sequence of operation kinds, per operation the relations (new/equal/changed) of its rules to the installed set, and the resulting set size; non-trivial = every history (each runs at least one build or removal and one execution)",
 		Assumptions: []string{
 			"rule bodies are observed through the injected function tr (client boundary); order verdicts use the position in the tr() sequence only",
